@@ -284,10 +284,10 @@ func (g *jsGen) lit() *JSNode {
 	r := g.r
 	switch r.Intn(9) {
 	case 0, 1:
-		return &JSNode{K: "num", S: Pick(r, []string{"0", "1", "42", "3.14", ".5", "1e3", "0x1F", "0b11", "0o17", "1_000", "10n", "5.", "0.0", "2e-7"})}
+		return &JSNode{K: "num", S: Pick(r, []string{"0", "1", "42", "3.14", ".5", "1e3", "0x1F", "0b11", "0o17", "1_000", "10n", "5.", "0.0", "2e-7", ".0", ".05", ".9"})}
 	case 2, 3:
 		return &JSNode{K: "str", S: Pick(r, []string{`"s"`, `'t'`, `"a\"b"`, `'it\'s'`, `"\n\\"`, `"line\
-cont"`, `''`, `"é日"`, `'</script>'`, `"use\x20strict"`})}
+cont"`, "'cr\\\r\nlf'", "\"c\\\rr\"", "'ls\\\u2028'", `''`, `"é日"`, `'</script>'`, `"use\x20strict"`})}
 	case 4:
 		return &JSNode{K: "kw", S: Pick(r, []string{"null", "true", "false", "this"})}
 	case 5:
@@ -493,6 +493,20 @@ func (g *jsGen) function(kind string, async, generator bool, exprBody bool) (par
 			if el.K == "patel" && r.Intn(3) == 0 {
 				el.Kids = append(el.Kids, g.simpleDefault())
 			}
+			// computed keys of an object pattern are expressions of the parameter list too: ({[[k][0]]: v}) => …
+			if len(el.Kids) > 0 && el.Kids[0] != nil && el.Kids[0].K == "objpat" {
+				for _, c := range el.Kids[0].Kids {
+					if c.K == "patprop" && r.Intn(3) == 0 {
+						var key *JSNode
+						if r.Intn(2) == 0 {
+							key = &JSNode{K: "index", Kids: []*JSNode{{K: "array", Kids: []*JSNode{g.ref()}}, {K: "num", S: "0"}}}
+						} else {
+							key = &JSNode{K: "member", S: "p", Kids: []*JSNode{{K: "object", Kids: []*JSNode{{K: "prop", Kids: []*JSNode{{K: "keyid", S: "p"}, g.ref()}}}}}}
+						}
+						c.Kids[0] = &JSNode{K: "keycomp", Kids: []*JSNode{key}}
+					}
+				}
+			}
 		}
 		g.avoid, g.refOuter, g.refOuterFn = saveAvoid, saveOuter, saveOuterFn
 		seen := map[string]bool{}
@@ -675,6 +689,12 @@ func (g *jsGen) class(isExpr bool) *JSNode {
 		case 2:
 			if el.flag("static") && r.Intn(2) == 0 {
 				el.Op = "staticblock"
+				if key.K == "keypriv" {
+					// a static block has no name: the private name drawn for this element is not declared after all
+					cp := g.classPrivs[len(g.classPrivs)-1]
+					g.classPrivs[len(g.classPrivs)-1] = cp[:len(cp)-1]
+					privs = append([]string{key.S}, privs...)
+				}
 				g.push("func")
 				restore := g.enterClassInit()
 				b := &JSNode{K: "body"}
@@ -1207,6 +1227,13 @@ func (g *jsGen) stmt(depth int, top bool) *JSNode {
 			if l == label {
 				return &JSNode{K: "debugger"} // no empty statement directly inside a statement list: the parser folds ";;" (pinned by the unit tests for "{};;")
 			}
+		}
+		if r.Intn(4) == 0 {
+			// any statement can carry a label: a var statement, an expression statement
+			if r.Intn(2) == 0 {
+				return &JSNode{K: "labelled", S: label, Kids: []*JSNode{g.varDecl("var", depth, false)}}
+			}
+			return &JSNode{K: "labelled", S: label, Kids: []*JSNode{{K: "exprstmt", Kids: []*JSNode{g.expr(2, pComma)}}}}
 		}
 		g.labels = append(g.labels, label)
 		g.inLoop++
